@@ -17,7 +17,7 @@ def c09(ctx):
     rep.rule("C09.R3", "unimplemented visitor paths (ProduceValOutput::combine/default, ProduceVal::visit_array_push_rhs) are not in the "
              "monomorphic graph rooted at execution")
     n = cr.census_for(ctx, "C09.R1", "C09", "execution", cr.roots_exec)
-    rep.floor("C09.R1", n, 100, "census sites (both profiles)")
+    rep.floor("C09.R1", n, 60, "census sites (both profiles)")
     # R3
     rep.both_profiles("C09.R3")
     for prof, F in sorted(ctx.facts.items()):
